@@ -122,6 +122,38 @@ CHECKS.update({
         note='Trusted: refninja; the C argv dumper. Unity builds and targets with prebuilt/extracted objects are skipped for the sources comparison; symlinks and empty directories are not required to be named by the install plan.'),
 })
 
+CHECKS.update({
+    'C09': dict(
+        category='fault_enumeration', design_ref='DESIGN.md §4 C09',
+        technique='exhaustive crash-point enumeration: every file-system mutation (libc-level LD_PRELOAD shim) issued by each mutating meson command on each directory history is a kill point; real recovery command after each kill',
+        text='For every (history, command) pair a counting run under tools/fsfault.c lists the N mutations the real command issues below the build directory; '
+             'for every k the command is re-run from the same snapshot and killed right before mutation k (thorough: also torn in the middle of every write); '
+             'the prescribed recovery (`meson setup`, --reconfigure iff coredata.dat exists) must succeed without an unhandled exception and every tracked option '
+             'must have its old value or the value the command was setting.',
+        note='Process-kill consistency at libc-call granularity; power-loss semantics are not modelled. Quick explores the first/last point of every run of log-only mutations (argument in DESIGN.md), thorough every point and adds a C project with the ninja backend.'),
+    'C02': dict(
+        category='exploration', design_ref='DESIGN.md §4 C02',
+        technique='bounded exhaustive enumeration of token sequences (41 tokens, <= 4/5 tokens, 3 separator policies, sound prefix pruning), all strings <= 3/4 characters, the repository corpus and its complete single-edit neighbourhood, through the real lexer/parser/RawPrinter',
+        text='Every input is either rejected with a MesonException whose position lies inside the text or parsed to a tree whose RawPrinter output equals the input byte for byte, '
+             'and for every FunctionNode/ArrayNode the text cut by the recorded extent with the arithmetic the real rewriter uses (probed at start-up) is exactly that construct. '
+             'Any other exception type is a violation. Pruned sub-spaces are justified (LL(1) parser already failed before the last token) and re-validated on a slice.',
+        note='Completed depth is reported in evidence; texts with a bare CR are not extent-checked.'),
+    'C07': dict(
+        category='exploration', design_ref='DESIGN.md §4 C07',
+        technique='exhaustive enumeration of option-source subsets (2^4 top level, 2^8 subproject) x option kinds x value assignments on the real OptionStore in-process and end-to-end through meson setup, against a reference function transcribed from the documented order',
+        text='Every subset of the documented value sources is realised for every option kind with assignments that make a wrong winner visible; the real OptionStore is driven exactly '
+             'as the interpreter drives it (tier A) and the same scenarios run as real projects with command line, machine files and default_options through `meson setup` with get_option() '
+             'messages as ground truth (tier B); buildtype/debug/optimization, prefix-dependent directories, per-machine options and every invalid-value class from every source are covered.',
+        note='Trusted: the reference functions as transcription of Builtin-options.md / Machine-files.md / Build-options.md; docs-silent corners are skipped and counted.'),
+    'C11': dict(
+        category='model_checking', design_ref='DESIGN.md §4 C11',
+        technique='explicit-state search over install histories (states = DESTDIR trees) on projects enumerated from an install-rule alphabet, real meson install/uninstall, against a reference install model computed from the generated build definition',
+        text='All install-rule sets up to the bound x names/modes/umask/prefix/DESTDIR/tags/skip-subprojects families are configured, built by the reference ninja executor and installed by '
+             'the real `meson install` inside a read-only mount namespace; the tree must equal the model, the log must name exactly what was created, intro-install_plan must agree, '
+             'dry-run changes nothing, install twice equals once, uninstall restores the pre-install tree; histories are explored breadth-first to depth 3.',
+        note='Trusted: the install model as transcription of Installing.md and the generated rules; listed unspecified corners (parent directory modes etc.) are not compared.'),
+})
+
 NOT_YET = {}
 
 
